@@ -119,7 +119,7 @@ def rand_layout(rng, absolute=False):
     return d or None
 
 
-def rand_desc(rng, nlang=None, unbalanced=0.15, absolute=0.15, with_layout=0.5):
+def rand_desc(rng, nlang=None, unbalanced=0.15, absolute=0.15, with_layout=0.5, style_layout=0.0):
     langs = []
     names = ["en-US", "fr-FR", "de"]
     abs_ = rng.random() < absolute
@@ -135,13 +135,20 @@ def rand_desc(rng, nlang=None, unbalanced=0.15, absolute=0.15, with_layout=0.5):
                     nodes.append(["B"])
                 if rng.random() < 0.5 and not open_:
                     st = {rng.choice(["italics", "bold", "underline"]): True}
-                    nodes.append(["S", True, st]); open_ = st
+                    if rng.random() < style_layout:
+                        # a style node that carries a layout of its own, sometimes with no style rule at all
+                        # (what <span region="..."> without tts attributes reads as)
+                        nodes.append(["S", True, {} if rng.random() < 0.5 else st, rand_layout(rng, abs_)]); open_ = nodes[-1][2]
+                        if not open_:
+                            open_ = {"_empty": True}
+                    else:
+                        nodes.append(["S", True, st]); open_ = st
                 nodes.append(["T", " ".join(rng.choice(WORDS) for _ in range(rng.randint(1, 4)))] +
                              ([rand_layout(rng, abs_)] if rng.random() < with_layout * 0.3 else []))
                 if open_ and rng.random() < 0.6:
-                    nodes.append(["S", False, open_]); open_ = False
+                    nodes.append(["S", False, {} if "_empty" in open_ else open_]); open_ = False
             if open_ and rng.random() > unbalanced:
-                nodes.append(["S", False, open_])
+                nodes.append(["S", False, {} if "_empty" in open_ else open_])
             d = rng.choice([1500000, 2000000])
             caps.append({"start": t, "end": t + d, "nodes": nodes,
                          "style": rng.choice([{}, {}, {"class": "p"}, {"italics": True}, {"text-align": "center"}]),
